@@ -719,6 +719,10 @@ def oracle_cases(ctx, deep):
             dict(base, sizes='4,3x5', eta='0,1,3', prob='0.05,0.1'),
             dict(base, eta='0.1,0.2,0.3,0.4'), dict(base, eta='1,1.5,2.5,2', bias='X'),
             dict(base, eta='10,10.5,inf,1000', bias='Y'), dict(base, eta='0,0.25', prob='0.3'),
+            # ratios whose textual forms are close (digits/dots/leading zeros): each must keep its own file
+            dict(base, eta='0.5,1.5,3,15,100'), dict(base, eta='2.5,25,250,inf', bias='X'),
+            dict(base, eta='1,10,100,1000,0.1,0.01'), dict(base, eta='1.25,12.5,125', bias='Y'),
+            dict(base, eta='30000,300000,10000000,inf', prob='0.1'),
             dict(base, sizes='3x4,4x3,5', prob='0:0.06'), dict(base, sizes='2x3x4,4', code_class='Planar3DCode')]
     for _ in range(400 if deep else 60):
         a = gen_args(rng, valid=True, big=deep)
